@@ -251,14 +251,21 @@ func (s *Session) Run(cc *Conn) (err error) {
 		}
 		buffer = shrinkBufferIfNecessary(buffer, s.connectionCacheSize)
 		readLen, err := s.connection.ReadWithContext(s.Context(), readBuf)
+		if readLen > 0 {
+			// a Read may return the last bytes together with the error that ends the stream (io.Reader; crypto/tls
+			// does when the final record and the close_notify alert arrive together): they were received
+			buffer.Write(readBuf[:readLen])
+		}
 		if err != nil {
+			if readLen > 0 {
+				if errP := s.processBuffer(buffer, cc); errP != nil {
+					return errP
+				}
+			}
 			if coapNet.IsConnectionBrokenError(err) { // other side closed the connection, ignore the error and return
 				return nil
 			}
 			return fmt.Errorf("cannot read from connection: %w", err)
-		}
-		if readLen > 0 {
-			buffer.Write(readBuf[:readLen])
 		}
 	}
 }
